@@ -96,7 +96,7 @@ def workload(ctx):
     rng = ctx.rng(1)
     names = sorted(sgmod.sgdic)
     idx = 0
-    for rep in range(ctx.n(1, 4)):
+    for rep in range(ctx.n(1, 24)):
         for key in names:
             for kind in ("Uiso", "Uani", "none"):
                 s = int(rng.integers(0, 2 ** 31))
